@@ -586,7 +586,9 @@ func basketInfo(s *snap.Snap, id uint64) string {
 // page runs one request and returns the rendered elements, next key and total.
 func page(w *eng.World, sp listSpec, arg string, pr *query.PageRequest) (elems []string, next []byte, total uint64, err error) {
 	req := sp.req(arg)
-	reflect.ValueOf(req).Elem().FieldByName("Pagination").Set(reflect.ValueOf(pr))
+	if pr != nil {
+		reflect.ValueOf(req).Elem().FieldByName("Pagination").Set(reflect.ValueOf(pr))
+	}
 	resp := sp.resp()
 	if err = w.C.Query(sp.path, req, resp); err != nil {
 		return nil, nil, 0, err
@@ -719,6 +721,22 @@ func (m *C17) runQuery(w *eng.World, sp listSpec, arg, mode string, limit uint64
 	m.compare(w, sp, arg, "offset walk limit "+fmt.Sprint(limit), got2, want)
 	if strings.Join(got, "\x00") != strings.Join(got2, "\x00") {
 		w.Violation("C17", "order-not-stable/"+sp.name, "%s(%q): key walk and offset walk disagree on order:\n%v\n%v", sp.name, arg, got, got2)
+	}
+	// no page request at all: the first 100 elements (the default page size), with a next key iff there are more
+	if !reverse {
+		el, nk, _, err := page(w, sp, arg, nil)
+		wantN := len(got)
+		if wantN > 100 {
+			wantN = 100
+			w.Flags["list-longer-than-default-page"] = true
+		}
+		if err != nil {
+			w.Violation("C17", "query-error/"+sp.name, "%s(%q) without page request failed: %v", sp.name, arg, err)
+			return
+		}
+		if strings.Join(el, "\x00") != strings.Join(got[:wantN], "\x00") || (len(nk) > 0) != (len(got) > 100) {
+			w.Violation("C17", "default-page-wrong/"+sp.name, "%s(%q) without page request returned %d elements (next key %v); the walk has %d", sp.name, arg, len(el), len(nk) > 0, len(got))
+		}
 	}
 	// page size left at its default (limit 0) together with an offset or a continuation key
 	if len(got) >= 2 {
